@@ -15,7 +15,7 @@ def run(chk):
     chk.trusted_base = TRUSTED
     chk.rule = ("op cells: the non-symmetric face integrals of all cells: every non-negligible face (i, j, s) must have a partner (j, i, -s) with the same area and shifted centroid; "
                 "op tess (full and masked builds, vs the exact cells): every non-negligible exact face between two constructed cells is stored exactly once when unshifted (and listed by both cells) and from both sides when shifted, periodic faces in reciprocal pairs with opposite normals; non-trivial = cell pair sharing a non-negligible face")
-    chk.lean(['MVoro.Props.C03', 'MVoro.Proofs.TessBook', 'MVoro.Proofs.VorSet'], [], [])
+    chk.lean(['MVoro.Props.C03', 'MVoro.Proofs.TessBook', 'MVoro.Proofs.VorSet'], ['MVoro.Obl.Rules'], ['Rules'])
     got = run_cells_op(chk, op='cells')
     if got is None:
         return
